@@ -111,18 +111,29 @@ def random_top(rng, n_blocks=8):
     outs = [('out%d' % k, rng.randint(1, 8)) for k in range(n_out)]
     info = {}
     def body(t, i, o):
-        _, _, inf = designs.build_random(rng, n_blocks=n_blocks, parent=t, in_wires=[i[n] for n, _ in ins], out_wires=[o[n] for n, _ in outs], shuffle=True, plain_reset='nonneg')
+        _, _, inf = designs.build_random(rng, n_blocks=n_blocks, parent=t, in_wires=[i[n] for n, _ in ins], out_wires=[o[n] for n, _ in outs], shuffle=True, plain_reset='nonneg', xor_equal_widths=True)
         info.update(inf)
     hw, top = make_top('RandTop', ins, outs, body)
     return hw, top, ins, outs, info
 
 
 def stimulus(rng, ins, n_steps, clocked=True, nonzero=()):
+    """random data with boundary values; the 1-bit inputs (enables, resets, selects) walk through ALL their combinations,
+    each one held for two consecutive steps, so priority/gating mistakes between control inputs are exercised"""
+    ctl = [n for n, w in ins if w == 1 and n not in nonzero]
+    combos = []
+    if 0 < len(ctl) <= 3:
+        for rnd in range(3):              # three rounds, so every combination also occurs after the state has moved
+            part = []
+            for k in range(1 << len(ctl)):
+                part += [k, k]
+            rng.shuffle(part); combos += part
     steps = []
-    for _ in range(n_steps):
+    for t in range(max(n_steps, len(combos))):
         pk = []
         for n, w in ins:
-            v = rng.choice([0, 1, (1 << w) - 1, 1 << (w - 1), rng.randrange(1 << w), rng.randrange(1 << w)])
+            v = rng.choice([0, 1, (1 << w) - 1, 1 << (w - 1)]) if rng.random() < .3 else rng.randrange(1 << w)
+            if n in ctl and t < len(combos): v = (combos[t] >> ctl.index(n)) & 1
             if n in nonzero and v == 0: v = 1
             pk.append((n, v))
         steps.append((pk, 1 if clocked else 0))
